@@ -70,24 +70,54 @@ def check_order(params, combos):
 
 
 def token(side, idx):
-    return 2 ** (idx - 1) * (1 if side == 0 else 2 ** 10)
+    return 2 ** (idx - 1) * (2 ** (14 * side))
 
 
-def make_results(grid, side):
+NCH = 3
+
+
+def observations(side, idx, nobs):
+    """the observations held by result `idx` of operand `side`: (value, choice index) per observation"""
+    t = token(side, idx)
+    obs = [(t, (idx + side) % NCH)]
+    if nobs == 2:
+        obs.append((3 * t, (idx + side + 1) % NCH))
+    return obs
+
+
+def make_results(grid, side, nobs=1, acc=False):
     from pyphysim.simulations.results import Result, SimulationResults
     params = make_params(grid, ints_when_integral=(side == 0))
     sr = SimulationResults()
     sr.set_parameters(params)
     n = params.get_num_unpacked_variations()
+    kw = {"accumulate_values": True} if acc else {}
     for i in range(1, n + 1):
-        sr.append_result(Result.create("s", Result.SUMTYPE, token(side, i)))
-        sr.append_result(Result.create("r", Result.RATIOTYPE, token(side, i), 2 ** 21))
-        sr.append_result(Result.create("m", Result.MISCTYPE, token(side, i)))
+        obs = observations(side, i, nobs)
+        rs = [Result.create("s", Result.SUMTYPE, obs[0][0], **kw), Result.create("r", Result.RATIOTYPE, obs[0][0], 2 ** 21, **kw),
+              Result.create("m", Result.MISCTYPE, obs[0][0], **kw), Result.create("c", Result.CHOICETYPE, obs[0][1], NCH, **kw)]
+        for v, ch in obs[1:]:
+            rs[0].update(v)
+            rs[1].update(v, 2 ** 21)
+            rs[2].update(v)
+            rs[3].update(ch)
+        for r in rs:
+            sr.append_result(r)
     return sr
 
 
+def _plain(x):
+    if isinstance(x, np.ndarray):
+        return ("array", str(x.dtype), x.tolist())
+    if isinstance(x, dict):
+        return {k: _plain(v) for k, v in x.items()}
+    if isinstance(x, (list, tuple)):
+        return [_plain(v) for v in x]
+    return x
+
+
 def snapshot(sr):
-    return {n: [copy.deepcopy(r.to_dict() if hasattr(r, "to_dict") else r._to_dict()) for r in sr[n]] for n in sr.get_result_names()}
+    return {n: [_plain(copy.deepcopy(r.to_dict() if hasattr(r, "to_dict") else r._to_dict())) for r in sr[n]] for n in sr.get_result_names()}
 
 
 def run_lookup(case):
@@ -100,62 +130,106 @@ def run_lookup(case):
         return f"get_num_unpacked_variations {params.get_num_unpacked_variations()} != {case['n']}"
     fixed = {NAMES[p]: VALUES[p][v] for p, v in enumerate(case["fx"]) if v != 0}
     want = [i - 1 for i in case["idx"]]
-    if fixed:
-        got = [int(x) for x in np.atleast_1d(params.get_pack_indexes(fixed))]
-        if got != want:
-            return f"get_pack_indexes({fixed}) = {got}, expected {want}"
-        # fixed values may also be given together with the non-unpacked parameters
-        got2 = [int(x) for x in np.atleast_1d(params.get_pack_indexes(dict(fixed, zz_scalar=7)))]
-        if got2 != want:
-            return f"get_pack_indexes with an extra fixed scalar = {got2}, expected {want}"
+    # (also with nothing fixed, and with no unpacked parameter at all: the empty assignment selects every variation)
+    got = [int(x) for x in np.atleast_1d(params.get_pack_indexes(fixed))]
+    if got != want:
+        return f"get_pack_indexes({fixed}) = {got}, expected {want}"
+    # fixed values may also be given together with the non-unpacked parameters
+    got2 = [int(x) for x in np.atleast_1d(params.get_pack_indexes(dict(fixed, zz_scalar=7)))]
+    if got2 != want:
+        return f"get_pack_indexes with an extra fixed scalar = {got2}, expected {want}"
     sr = make_results(case["g"], 0)
-    vals = sr.get_result_values_list("s", fixed_params=fixed)
-    if [int(v) for v in vals] != [token(0, i) for i in case["idx"]]:
-        return f"get_result_values_list(s, {fixed}) = {vals}, expected results of variations {want}"
+    for fx in (fixed, dict(fixed, zz_scalar=7)) + ((None,) if not fixed else ()):
+        vals = sr.get_result_values_list("s", fixed_params=fx) if fx is not None else sr.get_result_values_list("s")
+        if [int(v) for v in vals] != [token(0, i) for i in case["idx"]]:
+            return f"get_result_values_list(s, {fx}) = {vals}, expected results of variations {want}"
+    return None
+
+
+def check_combined(u, exp, sides, nobs, acc, what):
+    """u: combined results; exp: per combination the operand indexes (0 = absent) under the keys in `sides`"""
+    from fractions import Fraction as Fr
+    d = check_order(u.params, [e["combo"] for e in exp])
+    if d:
+        return f"{what}: combined parameters: " + d
+    for name in ("s", "r", "m", "c"):
+        lst = u[name]
+        if len(lst) != len(exp):
+            return f"{what}: {len(lst)} combined results for {name}, expected {len(exp)}"
+        for k, e in enumerate(exp):
+            r = lst[k]
+            dct = r.to_dict() if hasattr(r, "to_dict") else r._to_dict()
+            obs = [o for side, key in enumerate(sides) if e[key] for o in observations(side, e[key], nobs)]
+            n = len(obs)
+            where = f"{what}: combination {e['combo']}: {name}"
+            want_v = [o[1] if name == "c" else o[0] for o in obs] if acc else []
+            if name == "m":
+                if n and dct["value"] != obs[-1][0]:
+                    return f"{where} value {dct['value']}, expected the last merged observation {obs[-1][0]}"
+                if n and [int(x) for x in dct["value_list"]] != want_v:
+                    return f"{where} accumulated values {dct['value_list']}, expected {want_v}"
+                continue
+            if r.num_updates != n:
+                return f"{where} num_updates {r.num_updates}, expected {n}"
+            if [int(x) for x in dct["value_list"]] != want_v:
+                return f"{where} accumulated values {list(dct['value_list'])}, expected {want_v} (operands accumulate: {acc})"
+            if name == "c":
+                counts = [sum(1 for o in obs if o[1] == ch) for ch in range(NCH)]
+                if [int(x) for x in dct["value"]] != counts or dct["total"] != n:
+                    return f"{where} counts {list(dct['value'])} / total {dct['total']}, expected {counts} / {n}"
+                if n and [float(x) for x in r.get_result()] != [c / n for c in counts]:
+                    return f"{where} get_result() {r.get_result()}, expected {[c / n for c in counts]}"
+                continue
+            toks = [o[0] for o in obs]
+            if dct["value"] != sum(toks):
+                return f"{where} value {dct['value']} is not the sum of the observations of the results that stand for this combination ({toks})"
+            if name == "r":
+                terms = [Fr(t, 2 ** 21) for t in toks]
+                if dct["total"] != n * 2 ** 21:
+                    return f"{where} total {dct['total']}, expected {n * 2 ** 21}"
+                if [int(x) for x in dct["total_list"]] != ([2 ** 21] * n if acc else []):
+                    return f"{where} accumulated totals {list(dct['total_list'])}"
+            else:
+                terms = [Fr(t) for t in toks]
+            sq = sum(t * t for t in terms)        # (squares of the third operand's tokens exceed 2^53: relative comparison)
+            if Fr(dct["result_sum"]) != sum(terms) or abs(Fr(dct["result_squared_sum"]) - sq) > Fr(1, 10 ** 13) * sq:
+                return f"{where} sum / squared sum are not those of the merged observations"
+            if n:
+                mean = sum(terms) / n
+                var = sum(t * t for t in terms) / n - mean * mean
+                gm, gv = r.get_result_mean(), r.get_result_var()
+                if abs(gm - float(mean)) > 1e-12 * max(1.0, abs(float(mean))) or abs(gv - float(var)) > 1e-9 * max(1.0, abs(float(var))):
+                    return f"{where} mean / variance {gm} / {gv}, expected {float(mean)} / {float(var)}"
     return None
 
 
 def run_combine(case):
     from pyphysim.simulations.results import combine_simulation_results
-    a = make_results(case["ga"], 0)
-    b = make_results(case["gb"], 1)
+    nobs, acc = case.get("nobs", 1), case.get("acc", False)
+    a = make_results(case["ga"], 0, nobs, acc)
+    b = make_results(case["gb"], 1, nobs, acc)
     sa, sb = snapshot(a), snapshot(b)
     u = combine_simulation_results(a, b)
     if snapshot(a) != sa or snapshot(b) != sb:
         return "combine_simulation_results changed one of its operands"
-    exp = case["exp"]
-    d = check_order(u.params, [e["combo"] for e in exp])
-    if d:
-        return "combined parameters: " + d
-    for name in ("s", "r", "m"):
-        lst = u[name]
-        if len(lst) != len(exp):
-            return f"{len(lst)} combined results for {name}, expected {len(exp)}"
-        for k, e in enumerate(exp):
-            dct = lst[k].to_dict() if hasattr(lst[k], "to_dict") else lst[k]._to_dict()
-            toks = ([token(0, e["a"])] if e["a"] else []) + ([token(1, e["b"])] if e["b"] else [])
-            n = len(toks)
-            if name == "m":
-                if n and dct["value"] != toks[-1]:
-                    return f"combination {e['combo']}: MISC value {dct['value']}, expected the last merged observation {toks[-1]}"
-                continue
-            if lst[k].num_updates != n:
-                return f"combination {e['combo']}: {name} num_updates {lst[k].num_updates}, expected {n}"
-            if dct["value"] != sum(toks):
-                return f"combination {e['combo']}: {name} value {dct['value']} does not identify results a={e['a']} b={e['b']}"
-            if name == "r":
-                if dct["total"] != n * 2 ** 21:
-                    return f"combination {e['combo']}: ratio total {dct['total']}, expected {n * 2 ** 21}"
-                if dct["result_sum"] != sum(t / 2 ** 21 for t in toks) or dct["result_squared_sum"] != sum((t / 2 ** 21) ** 2 for t in toks):
-                    return f"combination {e['combo']}: ratio sum/squared sum not the merge of the operands"
-            else:
-                if dct["result_sum"] != sum(toks) or dct["result_squared_sum"] != sum(t * t for t in toks):
-                    return f"combination {e['combo']}: sum/squared sum not the merge of the operands"
-    return None
+    return check_combined(u, case["exp"], ("a", "b"), nobs, acc, "combine(a, b)")
+
+
+def run_combine3(case):
+    from pyphysim.simulations.results import combine_simulation_results
+    nobs, acc = case["nobs"], case["acc"]
+    ops = [make_results(case[g], side, nobs, acc) for side, g in enumerate(("ga", "gb", "gc"))]
+    snaps = [snapshot(o) for o in ops]
+    left = combine_simulation_results(combine_simulation_results(ops[0], ops[1]), ops[2])
+    right = combine_simulation_results(ops[0], combine_simulation_results(ops[1], ops[2]))
+    if [snapshot(o) for o in ops] != snaps:
+        return "a nested combine_simulation_results changed one of its operands"
+    return (check_combined(left, case["exp"], ("a", "b", "c"), nobs, acc, "combine(combine(a, b), c)")
+            or check_combined(right, case["exp"], ("a", "b", "c"), nobs, acc, "combine(a, combine(b, c))"))
 
 
 def run_case(case):
     try:
-        return run_lookup(case) if case["kind"] == "lookup" else run_combine(case)
+        return run_lookup(case) if case["kind"] == "lookup" else run_combine3(case) if case["kind"] == "combine3" else run_combine(case)
     except Exception as ex:
         return f"raised {type(ex).__name__}: {ex}"
